@@ -260,6 +260,14 @@ func init() {
 		n := ex.concreteInt(a[2], "SplitN n", site)
 		return ex.strSplit(site, a[0], strArg(a[1]), n)
 	})
+	reg("strings.Repeat", func(ex *Exec, fr *Frame, site ssa.Instruction, a []Value) Value {
+		s, ok1 := strArg(a[0]).StrVal()
+		n, ok2 := a[1].(*Term).BVVal()
+		if !ok1 || !ok2 || int64(n) < 0 || int64(n)*int64(len(s)) > 1<<24 {
+			panic(unsupported("strings.Repeat with symbolic or huge arguments"))
+		}
+		return mkStr(strings.Repeat(s, int(n)))
+	})
 	reg("strings.Join", func(ex *Exec, fr *Frame, site ssa.Instruction, a []Value) Value {
 		vals := ex.sliceVals(a[0])
 		sep := strArg(a[1])
@@ -654,7 +662,19 @@ func (ex *Exec) fmtFloat(t *Term) Value {
 		ex.assume(tStrContains(exp, mkStr("e+")))
 		return tIte(small, plain, exp)
 	}
-	return ex.fresh("fmtfloat", SStr)
+	// any other float64: the shortest 'g' rendering of a value not known to be integral. When the value is
+	// integral the caller usually took another path (IntOf); a non-integral value, NaN and the infinities
+	// never render as a plain (optionally signed) digit string
+	r := ex.fresh("fmtfloat", SStr)
+	if t.Op == "var" {
+		// lazy JSON float literals are created non-integral and finite (jsonlazy.go setKind)
+		for _, sv := range ex.vars {
+			if sv.T == t && sv.Kind == "json-float" {
+				r.NonDigit = true
+			}
+		}
+	}
+	return r
 }
 
 // fmtValue renders one operand for verb.
@@ -733,8 +753,14 @@ func (ex *Exec) fmtValue(fr *Frame, site ssa.Instruction, v Value, verb byte) Va
 			return mkStr("")
 		}
 	}
-	// anything else prints as an opaque string
-	return ex.fresh("fmtopaque", SStr)
+	// anything else prints as an opaque string; maps, slices, structs and pointers never print as a
+	// plain digit string ("map[...]", "[...]", "{...}", "0x..." / "&{...}")
+	r := ex.fresh("fmtopaque", SStr)
+	switch i.v.(type) {
+	case *MapObj, Slice, Struct, *Value, Array:
+		r.NonDigit = true
+	}
+	return r
 }
 
 // sprintf supports %s %v %d %q %w %T %x %t %f %+v %#v and %%.
